@@ -127,7 +127,7 @@ func runC08(c *kit.Ctx) {
 				if !ok {
 					return
 				}
-				k, isC := r.Results[1].(*ssa.Const)
+				k, isC := kit.Res(r, 1).(*ssa.Const)
 				written := isC && k.Value != nil && k.Value.ExactString() == "true"
 				dominated, reached := false, false
 				for _, st := range replStores {
@@ -167,7 +167,7 @@ func runC08(c *kit.Ctx) {
 								// true edge returns (nil,false)
 								for _, x := range kit.SuccOnTrue(iff).Instrs {
 									if r, ok := x.(*ssa.Return); ok {
-										if k, ok := r.Results[1].(*ssa.Const); ok && k.Value != nil && k.Value.ExactString() == "false" {
+										if k, ok := kit.Res(r, 1).(*ssa.Const); ok && k.Value != nil && k.Value.ExactString() == "false" {
 											okYoung = true
 										}
 									}
